@@ -44,6 +44,21 @@ fn one<const D: usize>(id: &str, fam: &str, s: &[Vec<f64>], q: &[f64], out: &mut
     out.obs("insphere_std", &c(&|| insphere(&sp, qp).map(ins).map_err(|e| e.to_string())));
     out.obs("insphere_lifted", &c(&|| insphere_lifted(&sp, qp).map(ins).map_err(|e| e.to_string())));
     out.obs("insphere_distance", &c(&|| insphere_distance(&sp, qp).map(ins).map_err(|e| e.to_string())));
+    // the documented in-sphere matrix [p | |p|^2 | 1] (query last) through the PUBLIC determinant:
+    // when the exact determinant is zero this value IS the rounding error of the evaluation
+    {
+        use delaunay::geometry::matrix::{determinant, Matrix};
+        let mut rows: Vec<Vec<f64>> = Vec::new();
+        for p in s.iter().chain(std::iter::once(&q.to_vec())) {
+            let mut r: Vec<f64> = p.clone();
+            r.push(p.iter().map(|x| x * x).sum::<f64>());
+            r.push(1.0);
+            rows.push(r);
+        }
+        macro_rules! det_n { ($n:literal) => {{ let mut m = Matrix::<$n>::zero(); for i in 0..$n { for j in 0..$n { let _ = m.set(i, j, rows[i][j]); } } crate::common::catch(|| determinant(&m)) }}; }
+        let dv = match D { 2 => det_n!(4), 3 => det_n!(5), 4 => det_n!(6), _ => det_n!(7) };
+        if let Ok(v) = dv { out.obs("ins_noise", &crate::common::hx(v)); }
+    }
     out.end();
 }
 
@@ -166,6 +181,13 @@ pub fn run(cfg: &Cfg, rng: &mut Rng, out: &mut Out) {
     g3i.push(vec![1, 2, 2]);
     let g3 = gens::to_f(&g3i, 1.0, 0.0);
     tuples_exhaustive(3, &g3, "grid3_2", if thorough { 100_000 } else { 1200 }, rng, out, &mut cnt);
+    // the same lattices AWAY from the origin (shifted by -3): exactly cocircular / cospherical
+    // configurations whose LU elimination is not exact (thirds appear), so that the floating
+    // determinant is rounding noise and only the tolerance band turns it into BOUNDARY
+    let g2n = gens::to_f(&gens::full_grid(2, 4), 1.0, -3.0);
+    tuples_exhaustive(2, &g2n, "grid2_4_neg", if thorough { 100_000 } else { 9000 }, rng, out, &mut cnt);
+    let g3n = gens::to_f(&gens::full_grid(3, 3), 1.0, -3.0);
+    tuples_exhaustive(3, &g3n, "grid3_3_neg", if thorough { 60_000 } else { 3000 }, rng, out, &mut cnt);
     if thorough {
         let g2b = gens::to_f(&gens::full_grid(2, 4), 1.0, 0.0);
         tuples_exhaustive(2, &g2b, "grid2_4", 100_000, rng, out, &mut cnt);
